@@ -24,6 +24,8 @@ type GenCfg struct {
 	RootNode      bool // queries may select the Relay entry point node(id:) at the root
 	Skeleton      bool // more selections that hold nothing but object-valued fields at the inner levels
 	NestedLists   bool // some list-typed fields are lists of lists
+	Wide          bool // lists of scalars, ID-typed arguments, named fragments spread twice, aliases that spell a path, interface fields under two aliases
+	VarID         bool // client variables called "id" (the name the gateway's own follow-up requests use); implies ID-typed arguments
 	Chain         bool // worlds of the shape  Query.as:[A] (service 0)  A.bs:[B] (service 1)  B.leaf (service 2), operations through the whole chain
 	BigLists      bool
 	RichArgs      bool            // enum, list and input-object arguments
@@ -58,8 +60,11 @@ func (g *gen) argDomain(ty string) []ArgVal {
 	switch ty {
 	case "Int":
 		return []ArgVal{{"t": "i", "v": 1}, {"t": "i", "v": 2}}
-	case "String", "ID":
+	case "String":
 		return []ArgVal{{"t": "s", "v": "a"}, {"t": "s", "v": "b"}}
+	case "ID":
+		// ids of entities that usually exist
+		return []ArgVal{{"t": "s", "v": "User_1"}, {"t": "s", "v": "User_2"}}
 	case "Boolean":
 		return []ArgVal{{"t": "b", "v": true}, {"t": "b", "v": false}}
 	case "Color":
@@ -98,6 +103,9 @@ func (g *gen) genArgs() []ArgDecl {
 	var out []ArgDecl
 	for i := 0; i < n; i++ {
 		tr := TypeRef{Name: scalarNames[g.pick(3)], NN: g.chance(0.3)}
+		if (g.cfg.Wide && g.chance(0.15)) || (g.cfg.VarID && g.chance(0.4)) {
+			tr = TypeRef{Name: "ID", NN: g.chance(0.5)}
+		}
 		if g.cfg.RichArgs {
 			switch x := g.r.Float64(); {
 			case x < 0.12:
@@ -281,6 +289,10 @@ func Gen(r *rand.Rand, cfg GenCfg, id int) *World {
 		}
 		if owner == sU && len(unions) > 0 && g.chance(0.25) {
 			return TypeRef{Name: unions[0], List: g.chance(0.5), ElemNN: g.chance(0.5)}
+		}
+		if cfg.Wide && g.chance(0.12) {
+			g.tag["scalar-list"] = true
+			return TypeRef{Name: scalarNames[g.pick(3)], List: true, NN: g.chance(0.3), ElemNN: g.chance(0.5)}
 		}
 		switch x := g.r.Float64(); {
 		case x < 0.45:
@@ -659,6 +671,7 @@ func renderArgValKey(v ArgVal) string {
 // ---------------------------------------------------------------------------- operations
 
 type opgen struct {
+	named   map[string][]*Sel // named fragments created so far, by type condition
 	via     string // url of the service that owns the field through which the current selection set was reached
 	g       *gen
 	op      *Op
@@ -690,6 +703,22 @@ func GenOp(r *rand.Rand, w *World, cfg GenCfg, kind string) *Op {
 	perm := g.r.Perm(len(td.Order))
 	for i := 0; i < n && i < len(perm); i++ {
 		og.op.Sel = append(og.op.Sel, og.field(root, td.Order[perm[i]], 1))
+	}
+	if cfg.Wide && kind == "query" && len(og.op.Sel) >= 2 && g.chance(0.3) {
+		// a response key that spells the path to a field selected elsewhere: a.b next to "a_b"
+		first := og.op.Sel[0]
+		for _, c := range first.Sub {
+			if c.K == "F" && len(c.Sub) > 0 {
+				for _, other := range og.op.Sel[1:] {
+					if other.K == "F" && len(other.Sub) > 0 {
+						other.Key = first.Key + "_" + c.Key
+						og.tag["path-alias"] = true
+						break
+					}
+				}
+				break
+			}
+		}
 	}
 	if kind == "query" && cfg.RootNode && g.chance(0.7) {
 		og.op.Sel = append(og.op.Sel, og.rootNode())
@@ -788,6 +817,10 @@ func (og *opgen) rootNode() *Sel {
 func (og *opgen) newVar(ty TypeRef, argDef ArgVal) ArgExpr {
 	g := og.g
 	name := fmt.Sprintf("v%d", len(og.op.VarOrd))
+	if g.cfg.VarID && ty.Name == "ID" && !ty.List && og.op.VarDefs["id"] == nil && g.chance(0.6) {
+		name = "id" // the name the gateway's own follow-up requests use
+		og.tag["var-named-id"] = true
+	}
 	// reuse an existing variable of the same type sometimes (one variable at two positions)
 	if !g.cfg.Off["varreuse"] && g.chance(0.25) {
 		for _, v := range og.op.VarOrd {
@@ -966,6 +999,14 @@ func (og *opgen) selset(tn string, depth int) []*Sel {
 			for _, f := range td.Order {
 				if g.chance(0.6) {
 					out = append(out, og.field(tn, f, depth+1))
+					if g.cfg.Wide && f != "id" && g.chance(0.25) {
+						// the same interface field once more under another response key
+						again := og.field(tn, f, depth+1)
+						og.alias++
+						again.Key = fmt.Sprintf("k%d", og.alias)
+						out = append(out, again)
+						og.tag["iface-field-twice"] = true
+					}
 				}
 			}
 		}
@@ -1071,9 +1112,29 @@ func (og *opgen) selset(tn string, depth int) []*Sel {
 			og.frag++
 			fr.Frag = fmt.Sprintf("F%d", og.frag)
 			og.tag["named-frag"] = true
+			if og.named == nil {
+				og.named = map[string][]*Sel{}
+			}
+			og.named[tn] = append(og.named[tn], fr)
 		}
 		og.tag["frag"] = true
 		out[k] = fr
+	}
+	// a named fragment on this type that exists already, spread here once more (the same definition at two places)
+	if g.cfg.Wide && !g.cfg.Off["frag"] && len(og.named[tn]) > 0 && g.chance(0.3) {
+		old := og.named[tn][g.pick(len(og.named[tn]))]
+		clash := false
+		for _, x := range out {
+			for _, y := range old.Sub {
+				if x.K == "F" && y.K == "F" && x.Key == y.Key {
+					clash = true // the response keys must not collide with what is selected here
+				}
+			}
+		}
+		if !clash && old != nil {
+			out = append(out, &Sel{K: "I", On: old.On, Frag: old.Frag, Dirs: []Dir{}, Sub: old.Sub})
+			og.tag["frag-twice"] = true
+		}
 	}
 	// the same object field twice with different sub-selections (merged by response key)
 	if !g.cfg.Off["dupkey"] && g.chance(0.06) && depth < g.cfg.MaxDepth {
